@@ -362,6 +362,9 @@ pub struct Ledger {
     pub superseded_on_crl: u64,
     pub superseded_expired_or_no_crl: u64,
     pub causes: BTreeSet<String>,
+    /// the operation kind after which the current check runs
+    pub cause_now: String,
+    seen_superseded: BTreeSet<(String, String)>,
 }
 
 impl Ledger {
@@ -413,7 +416,13 @@ impl Ledger {
                 Some(p) if o.not_after > now => {
                     if p.crl.contains(o.serial_raw) {
                         self.superseded_on_crl += 1;
-                        self.causes.insert(o.kind.clone());
+                        if self.seen_superseded.insert(
+                            (key.clone(), serial.clone())
+                        ) {
+                            self.causes.insert(format!(
+                                "{}|{}", o.kind, self.cause_now
+                            ));
+                        }
                     } else {
                         issues.push((
                             format!("superseded-not-on-crl:{}", o.kind),
